@@ -280,7 +280,7 @@ class Interp:
         self.opts = Options(**kw)
 
     def explore(self, qual: str | FuncInfo, env: dict | None = None, args: dict | None = None,
-                closure_frame: Frame | None = None) -> list[Path]:
+                closure_frame: Frame | None = None, closure_locals: dict | None = None) -> list[Path]:
         """All paths of the function.  `env` presets heap access paths (e.g.
         'state.outputs': {...}); `args` binds parameters to values (default: Sym(param))."""
         fi = qual if isinstance(qual, FuncInfo) else self.repo.func(qual)
@@ -290,10 +290,15 @@ class Interp:
             prefix = stack.pop()
             run = Run(self.repo, self.opts, prefix)
             memo: dict = {}
-            env_c, args_c = copy.deepcopy((env or {}, args or {}), memo)
+            env_c, args_c, cl_c = copy.deepcopy((env or {}, args or {}, closure_locals or {}), memo)
             for k, v in env_c.items():
                 run.heap[k] = v
-            fr = Frame(fi, closure_frame, 0)
+            cf = closure_frame
+            if closure_locals is not None and fi.parent is not None:
+                cf = Frame(fi.parent, None, 0)
+                for k, v in cl_c.items():
+                    cf.locals[k] = Cell(v, Sym(k) if not isinstance(v, Term) else v)
+            fr = Frame(fi, cf, 0)
             for p in fi.params:
                 if args and p in args:
                     fr.locals[p] = Cell(args_c[p], Sym(p))
